@@ -997,6 +997,12 @@ output_code_execute (OrcProgram *p, FILE *output, int is_inline)
         case ORC_PARAM_TYPE_INT:
           fprintf(output, "  ex->params[%s] = %s;\n",
               enumnames[ORC_VAR_P1 + i], varnames[ORC_VAR_P1 + i]);
+          if (var->size == 8) {
+            /* a 64-bit parameter passed as int: the code reads the high word
+             * as well, give it the sign extension */
+            fprintf(output, "  ex->params[%s] = (%s < 0) ? -1 : 0;\n",
+                enumnames[ORC_VAR_T1 + i], varnames[ORC_VAR_P1 + i]);
+          }
           break;
         case ORC_PARAM_TYPE_FLOAT:
           REQUIRE(0,4,5,1);
